@@ -11,6 +11,6 @@ for i in $(seq 1 40); do
   dir=$(dirname $file); base=$(basename $file .go)
   if [[ "$dir" == *harness ]]; then fam=$(echo $base | sed -E 's/^(c[0-9]+).*/\1/'); files=$(ls $dir/$fam*.go); pre=$fam; else files=$file; pre=$(echo $base | cut -c1-4); fi
   echo "clash: $name in $file -> ${pre}_$name"
-  sed -i -E "s/\b$name\b/${pre}_$name/g" $files
+  sed -i -E "s/(^|[^%A-Za-z0-9_.\"])$name\b/\1${pre}_$name/g" $files   # not inside %verbs, selectors or string starts
 done
 go vet -modfile /verif/.build/go.mod -tags verif ./cmd/harness ./cmd/extract 2>&1 | grep -v "^WARN\|^#" | head -5
